@@ -41,10 +41,25 @@ func c04StubUpdateGeneric(state *macState, msg []byte) {
 
 // The assembly-backed build (tags without purego) routes mac.Write/Sum to the assembly
 // function update; for the state-machine obligations it is abstracted by the same fold
-// (assumption: the assembly implements the same block function as updateGeneric).
+// (assumption: the assembly implements the same block function as updateGeneric). That
+// assumption is itself decided by the Asm* harnesses (zz_verif_c04_asm.go), which set
+// c04AsmReal so that the engine's amd64 interpreter executes sum_amd64.s.
 //
 //verif:stub golang.org/x/crypto/internal/poly1305.update
-func c04StubUpdate(state *macState, msg []byte) { c04Fold(state, msg) }
+func c04StubUpdate(state *macState, msg []byte) {
+	if c04AsmReal {
+		c04CallUpdate(state, msg)
+		return
+	}
+	c04Fold(state, msg)
+}
+
+// c04AsmReal makes the stub above fall through to the real assembly routine.
+var c04AsmReal bool
+
+// c04CallUpdate is set by the amd64-only harness file (the symbol update does not exist in
+// purego builds).
+var c04CallUpdate func(state *macState, msg []byte)
 
 // c04MulMode selects how the symbolic engine sees mul64 (the 64x64->128 multiplication used by
 // updateGeneric and by the reference c04RefBlock):
@@ -71,6 +86,25 @@ func c04StubMul64(a, b uint64) uint128 {
 		verifrt.Assume(hi <= a-1)
 		verifrt.Assume(hi <= c04HiBound(a, b))
 		return uint128{a * b, hi}
+	case 3:
+		// as mode 2 for callers whose second factor is a clamped r limb (b < 2^60), written
+		// without bit tricks so that the obligation stays arithmetic (integer back end)
+		verifrt.Assert(b < 1<<60, "mode 3: second factor is a clamped r limb")
+		hi := verifrt.UF64("p1305mulhi", a, b)
+		verifrt.Assume(hi <= b-1)
+		verifrt.Assume(hi <= a-1)
+		verifrt.Assume(hi <= a>>4)
+		return uint128{a * b, hi}
+	case 4:
+		// as mode 3 with the low word uninterpreted too: the obligation is then linear
+		// (sums, carries, masks, shifts of opaque product words)
+		verifrt.Assert(b < 1<<60, "mode 4: second factor is a clamped r limb")
+		lo := verifrt.UF64("p1305mullo", a, b)
+		hi := verifrt.UF64("p1305mulhi", a, b)
+		verifrt.Assume(hi <= b-1)
+		verifrt.Assume(hi <= a-1)
+		verifrt.Assume(hi <= a>>4)
+		return uint128{lo, hi}
 	}
 	return mul64(a, b)
 }
